@@ -100,6 +100,24 @@ def main(argv=None):
     return aggregate(prop, a, reports, jobs, seed, time.perf_counter() - t0)
 
 
+def confirm_natively(ob, case, params, schedule):
+    """replay a refutation on the real code; ghost-level counterexamples fall back to the contract's bounded
+    native search.  returns (confirmed, replay record)"""
+    rp = runner.replay(ob["contract"], case, ob["clause"], params, ob.get("raised"), schedule)
+    if rp["confirmed"]:
+        return True, rp
+    con = C.REGISTRY[ob["contract"]]
+    if hasattr(con, "native_search"):
+        try:
+            rp2 = con.native_search(case, params, ob)
+        except Exception as e:  # noqa
+            rp2 = {"confirmed": False, "observation": {"native_search_error": f"{type(e).__name__}: {e}"}}
+        if rp2["confirmed"]:
+            return True, rp2
+        rp = dict(rp, observation=dict(rp.get("observation") or {}, native_search=rp2["observation"]))
+    return False, rp
+
+
 def aggregate(prop, a, reports, jobs, seed, wall):
     known = load_known()
     kf = [k for k in known.get("findings", []) if k["property"] == prop]
@@ -154,8 +172,8 @@ def aggregate(prop, a, reports, jobs, seed, wall):
             if entry is not None:
                 region = entry.get("region")
                 if region is None:
-                    rp = runner.replay(ob["contract"], case, ob["clause"], ob["params"], ob.get("raised"), ob.get("schedule"))
-                    if rp["confirmed"]:
+                    ok_, rp = confirm_natively(ob, case, ob["params"], ob.get("schedule"))
+                    if ok_:
                         known_hits.append((oid, entry, ob, rp))
                     else:
                         confirm_faults.append((oid, ob, rp))
@@ -165,8 +183,8 @@ def aggregate(prop, a, reports, jobs, seed, wall):
                     confirm_faults.append((oid, ob, {"observation": f"known finding names unknown region {region}"}))
                     continue
                 if rg["fails_inside"] == "sat":
-                    rp = runner.replay(ob["contract"], case, ob["clause"], rg["inside_params"], ob.get("raised"), rg.get("inside_schedule"))
-                    if rp["confirmed"]:
+                    ok_, rp = confirm_natively(ob, case, rg["inside_params"], rg.get("inside_schedule"))
+                    if ok_:
                         known_hits.append((oid, entry, ob, rp))
                     else:
                         confirm_faults.append((oid, ob, rp))
@@ -281,6 +299,10 @@ def aggregate(prop, a, reports, jobs, seed, wall):
         print(f"VIOLATION property={prop} replay={fn}" + (" no-failing-input-found" if ob.get("no_failing_input") else ""))
         if a.verbose:
             print("   ", oid, ob["params"], ob.get("note"))
+    slow = sorted(((o.get("time_s") or 0, o["id"]) for obs in obligations.values() for o in obs), reverse=True)[:5]
+    if a.verbose:
+        for t, oid in slow:
+            print(f"  slowest: {t:.2f}s {oid}")
     n_ob = len(summary)
     n_dis = sum(1 for s in summary.values() if s == "discharged")
     n_unknown = sum(1 for s in summary.values() if s == "unknown")
@@ -357,6 +379,7 @@ def write_evidence(prop, a, seed, summary, obligations, reports, known_hits, vio
         "backends": backends,
         "solver_time_s": round(solver_time, 2),
         "paths_explored": n_paths,
+        "slowest_obligations_s": [[round(t, 2), oid] for t, oid in sorted(((o.get("time_s") or 0, o["id"]) for obs in obligations.values() for o in obs), reverse=True)[:3]],
         "differential_points": diff_points,
         "sentinels_refuted": sum(1 for *_, s in sentinels if s["refuted"]),
         "undecided": unsupported[:20],
